@@ -134,7 +134,7 @@ where
         }
     }
 
-    async fn apply_command(&mut self, command: ServerCommand) {
+    fn apply_command(&mut self, command: ServerCommand) {
         // first, change it locally so that it is applied to new sessions
         match command {
             ServerCommand::ChangeDecoding(level) => {
@@ -148,7 +148,7 @@ where
         for sender in self.tracker.sessions.values_mut() {
             // best effort to send the command to each session this isn't critical so we wouldn't
             // want to slow the server down by awaiting it
-            let _ = sender.send(command).await;
+            let _ = sender.try_send(command);
         }
     }
 
@@ -162,7 +162,7 @@ where
                             tracing::info!("server shutdown requested");
                             return;
                         }
-                        Some(command) => self.apply_command(command).await,
+                        Some(command) => self.apply_command(command),
                         None => {
                             tracing::info!("server shutdown");
                             return; // shutdown signal
